@@ -1535,10 +1535,11 @@ class SpaceManager(SharedSpaceOperations):
                         or refmode == "relative"):
                     is_relative, value = self.get_relative_interface(
                         subspace, space.own_refs[name])
-            ref = subspace.on_change_ref(name, value,
-                                         is_derived=True, refmode=refmode,
-                                         is_relative=is_relative)
-            ref.is_relative = is_relative
+            subspace.on_change_ref(name, value,
+                                   is_derived=True, refmode=refmode,
+                                   is_relative=is_relative)
+            # on_change_ref returns the replaced reference
+            subspace.own_refs[name].is_relative = is_relative
 
     def _check_sanity(self):
 
